@@ -155,3 +155,41 @@ def ref_mof_string_decode(lit):
             continue
         i += 2
     return out
+
+
+def ref_is_real_value(s):
+    """DSP0004 realValue = [ "+" / "-" ] *decimalDigit "." 1*decimalDigit [ ( "e" / "E" ) [ "+" / "-" ] 1*decimalDigit ]
+    (pywbem additionally accepts INF, -INF, NAN in any case)."""
+    n = len(s)
+    if n == 3 and (s[0] == 'I' or s[0] == 'i') and (s[1] == 'N' or s[1] == 'n') and (s[2] == 'F' or s[2] == 'f'):
+        return True
+    if n == 4 and s[0] == '-' and (s[1] == 'I' or s[1] == 'i') and (s[2] == 'N' or s[2] == 'n') and (s[3] == 'F' or s[3] == 'f'):
+        return True
+    if n == 3 and (s[0] == 'N' or s[0] == 'n') and (s[1] == 'A' or s[1] == 'a') and (s[2] == 'N' or s[2] == 'n'):
+        return True
+    i = 0
+    if i < n and (s[i] == '+' or s[i] == '-'):
+        i += 1
+    while i < n and 48 <= ord(s[i]) <= 57:
+        i += 1
+    if i >= n or s[i] != '.':
+        return False
+    i += 1
+    d = 0
+    while i < n and 48 <= ord(s[i]) <= 57:
+        i += 1
+        d += 1
+    if d == 0:
+        return False
+    if i == n:
+        return True
+    if not (s[i] == 'e' or s[i] == 'E'):
+        return False
+    i += 1
+    if i < n and (s[i] == '+' or s[i] == '-'):
+        i += 1
+    d = 0
+    while i < n and 48 <= ord(s[i]) <= 57:
+        i += 1
+        d += 1
+    return d > 0 and i == n
